@@ -649,3 +649,97 @@ class GetSpatialIdx:
         if exc.name == 'ValueError' and c.ctx.ghost.get('raised_by_contract') == GET_INDEX_OF:
             return []
         return None
+
+
+# ---------------------------------------------------------------------------------------------------
+# C14: to_dict - every event goes into the dictionary form, in order, field by field; attributes under their public names
+# ---------------------------------------------------------------------------------------------------
+from pyvc.contracts import LoopInv      # noqa: E402
+from pyvc.core import SymList      # noqa: E402
+
+EVENT_FIELDS = ('id', 'origin_time', 'latitude', 'longitude', 'depth', 'magnitude')
+
+
+class ToDictLoop(LoopInv):
+    """for line in list(self.catalog.tolist()): after i events out['catalog'] holds i rows, row t == the six fields of event t"""
+
+    def trips(self, I, it):
+        return to_z3(it.n)
+
+    def item(self, I, it, i):
+        return it.f(to_z3(i))
+
+    def havoc(self, I, fr, i, it):
+        data = I.ctx.ghost['todict_data']
+        rows = SymList(to_z3(i), lambda t: [data.fields[k].f((to_z3(t),)) for k in EVENT_FIELDS], 'rows')
+        fr.locals['out']['catalog'] = rows
+        for nm in ('line', 'new_line', 'item'):
+            fr.locals.pop(nm, None)
+
+    @staticmethod
+    def clause(I, row, t):
+        data = I.ctx.ghost['todict_data']
+        if not (isinstance(row, list) and len(row) == 6):
+            return z3.BoolVal(False)
+        return z3.And(*[to_z3(v) == to_z3(data.fields[k].f((t,))) for v, k in zip(row, EVENT_FIELDS)])
+
+    def inv(self, I, fr, i, it):
+        rows = fr.locals['out'].get('catalog')
+        if self.mode == 'assume':
+            return
+        i = to_z3(i)
+        n_r = to_z3(rows.n) if isinstance(rows, SymList) else z3.IntVal(len(rows))
+        yield 'one row per event so far', n_r == i
+        t = I.ctx.fresh_int('t!sk')
+        if isinstance(rows, SymList) and getattr(rows, 'last_append', None) is not None:
+            n0, v, f0 = rows.last_append
+            yield 'the row appended last holds the six fields of the event just read, in dtype order', self.clause(I, v, to_z3(n0))
+            yield 'earlier rows are kept', z3.Implies(z3.And(0 <= t, t < to_z3(n0)), self.clause(I, f0(t), t))
+        elif isinstance(rows, SymList):
+            yield 'row t holds the six fields of event t', z3.Implies(z3.And(0 <= t, t < n_r), self.clause(I, rows.f(t), t))
+
+
+@contract
+class CatalogToDict:
+    directed = staticmethod(_directed_roundtrips)
+    qualname = CATCLS + '.to_dict'
+    case = 'catalog of any number of events with a region record; attributes of the instance as set by the constructor'
+    properties = ('C14',)
+    loops = {1: ToDictLoop()}
+
+    def params(c):
+        from pyvc.core import Lam
+        from pyvc.models_time import mk_dt
+        region_dict = {'name': 'stored region'}
+        region = c.obj(None, to_dict=Lam(lambda *a, **k: region_dict, 'to_dict'))
+        cat, data = mk_catalog(c, region=region)
+        cat.fields.update(catalog_id=c.int('catalog_id'), name='the name', format='csep-csv', filename=None,
+                          metadata={}, date_accessed=mk_dt(c.int('date_accessed_us'), 'UTC'), compute_stats=False, filters=[])
+        c.ctx.ghost['todict_data'] = data
+        return dict(self=cat, _data=data, _region_dict=region_dict, _fields=dict(cat.fields))
+
+    def ensures(c, r, self, _data, _region_dict, _fields):
+        yield 'returns a dictionary', z3.BoolVal(isinstance(r, dict))
+        if not isinstance(r, dict):
+            return
+        rows = r.get('catalog')
+        yield 'the events are stored under the key catalog as a list', z3.BoolVal(isinstance(rows, (SymList, list)))
+        if isinstance(rows, SymList):
+            yield 'one row per event', to_z3(rows.n) == _data.n
+            t = c.ctx.fresh_int('t!sk')
+            yield 'row t == [id, origin time (ms), latitude, longitude, depth, magnitude] of event t, events in catalog order', z3.Implies(
+                z3.And(0 <= t, t < _data.n), ToDictLoop.clause(c.I, rows.f(t), t))
+        elif isinstance(rows, list):
+            yield 'no rows only for an empty catalog', _data.n == 0 if not rows else z3.BoolVal(False)
+        want = {k[1:] if k.startswith('_') else k: v for k, v in _fields.items() if k not in ('_catalog', 'region')}
+        yield 'every attribute is stored under its public name with its own value (catalog id 0 and other falsy values included); the event array is not', \
+            z3.BoolVal(set(r) == set(want) | {'catalog', 'region'} and all(r[k] is v or (not is_symv(v) and r[k] == v) for k, v in want.items()))
+        yield 'the region is stored in its own dictionary form', z3.BoolVal(r.get('region') is _region_dict)
+
+    def raises(c, exc, self, _data, _region_dict, _fields):
+        return None
+
+
+def is_symv(v):
+    from pyvc.core import is_sym
+    return is_sym(v) or isinstance(v, (Arr, Obj)) if 'Obj' in globals() else is_sym(v) or isinstance(v, Arr)
